@@ -300,8 +300,13 @@ def reqs(rng, toks, iv):
     return out
 
 
+# a quick check against a tree that differs from the validated one widens the random generation but skips the
+# 8-minute exhaustive enumeration of the thorough tier
+ESCALATED_TIER = "escalated"
+
+
 def gen(rng, tier):
-    n_scen = {"quick": 1500, "thorough": 6000, "search": 600}.get(tier, 1500)
+    n_scen = {"quick": 1500, "thorough": 6000, "search": 600, "escalated": 4000}.get(tier, 1500)
     for _ in range(n_scen):
         depth = rng.choice([0, 1, 1, 2, 2, 3, 3, 3, 4, 4, 5])
         kinds = [rng.choice(KINDS) for _ in range(depth)]
